@@ -299,3 +299,48 @@ def check_C11(run, replay):
     rows2 = read_ndjson(out_path)
     run.notes["edit_classes"] = class_counts(rows2)
     absorb(run, rows2, {n: v for n, (_, v) in enumerate(recs)}, mismatch_sig("build"))
+
+
+def oracle_cases(run, module, gen_what, replay_what, n, name, gen_extra=None, timeout=3000, replay=None, env=None,
+                 replay_extra=None):
+    """harness gen <gen_what> -> TLC oracle (spec/<module>) -> harness replay <replay_what>; returns (cases, rows)"""
+    cases_path = run.path(name + ".ndjson")
+    if replay is not None:
+        write_ndjson(cases_path, [replay])
+    else:
+        harness(["gen", gen_what, "--seed", run.seed, "--n", n, "--out", cases_path] + (gen_extra or []))
+    cases = read_ndjson(cases_path)
+    rows = oracle_pipeline(run, module, replay_what, cases_path, timeout=timeout, env=env, extra_replay=replay_extra)
+    return {c["id"]: c for c in cases}, rows
+
+
+# ------------------------------------------------------------------------------------------ C08
+LEVELS["C08"] = "model_checking"
+
+
+def check_C08(run, replay):
+    run.rule = ("step: seeded (small perfect-recall game, method in {Full,Sampled,External}, parameter tuple from the presets and "
+                "the lattice a,b in {-inf,-1,0,1/2,1,3/2,2,+inf}, g in {0,1/2,1,2,3}, w in {-inf,-1,0,1/2,1,+inf}, iteration "
+                "index t in {1,2,3,7,50}, an arbitrary state on a grid of small rationals incl. all-negative / all-zero / tied "
+                "regrets and zero-probability actions, draws as variates j/997); TLC computes ONE iteration of Cfr.tla exactly "
+                "(symbolic atoms for irrational discounts); the harness injects the state, pins the draws, runs exactly "
+                "iteration t in the production loop with 1 and 2 threads and compares every accumulator, next strategy, "
+                "bounds and the returned normalised average; non-trivial = every case; distinct by canonical JSON")
+    run.assumptions = ["irrational discount factors t^e/(t^e+1), (t/(t+1))^g and the finite-weight softmax are evaluated by "
+                       "the harness with f64 powf/exp from the documented formulas (DESIGN 3.1)",
+                       "comparison tolerance 1e-10 relative"]
+    if replay:
+        d = replay_case(replay)
+        kind = d.get("part", "step")
+        cases, rows = oracle_cases(run, "MC_CfrStep", "step", "step", 0, "step", replay=d["case"])
+        absorb(run, rows, cases, mismatch_sig("cfr"))
+        return
+    n = 1500 if run.tier == "quick" else 20000
+    cases, rows = oracle_cases(run, "MC_CfrStep", "step", "step", n, "step")
+    kinds = {}
+    for r in rows:
+        for k in r.get("kinds", []):
+            kinds[k] = kinds.get(k, 0) + 1
+    run.notes["regret_matching_branches_exercised"] = kinds
+    run.notes["step_classes"] = class_counts(rows)
+    absorb(run, rows, cases, mismatch_sig("cfr"))
